@@ -74,6 +74,7 @@ type seen struct {
 	err     error
 	calls   [][]string // arguments of every callback invocation
 	scopes  [][]string // scopes argument of every callback invocation (bearer)
+	mute    bool       // a follow-up call on the same authenticator is running: nothing is recorded
 	nilCtx  bool       // a context-aware callback was handed a nil context
 	failed  string     // security.FailedBasicAuth after the run
 	oauth   string     // security.OAuth2SchemeName after the run
@@ -524,6 +525,10 @@ func runBearer(c BearerCase, ctxVariant bool) (*seen, *kit.Violation) {
 					s.nilCtx = true
 					ctx = context.Background()
 				}
+				if s.mute {
+					pr, err := cbResult(c.Callback)
+					return ctx, pr, err
+				}
 				s.calls = append(s.calls, []string{tok})
 				s.scopes = append(s.scopes, scopes)
 				s.inCb = append(s.inCb, security.OAuth2SchemeNameCtx(ctx))
@@ -532,6 +537,9 @@ func runBearer(c BearerCase, ctxVariant bool) (*seen, *kit.Violation) {
 			})
 		} else {
 			auth = security.BearerAuth(c.Scheme, func(tok string, scopes []string) (interface{}, error) {
+				if s.mute {
+					return cbResult(c.Callback)
+				}
 				s.calls = append(s.calls, []string{tok})
 				s.scopes = append(s.scopes, scopes)
 				return cbResult(c.Callback)
@@ -592,6 +600,11 @@ func runBearer(c BearerCase, ctxVariant bool) (*seen, *kit.Violation) {
 		s.applies, s.princ, s.err = auth.Authenticate(authParam(r, true, c.Scopes))
 		s.failed = security.FailedBasicAuth(r)
 		s.oauth = security.OAuth2SchemeName(r)
+		// the same authenticator serves another operation afterwards: what the first callback was handed (it may keep
+		// it: an audit record, a goroutine still at work) stays what it was (r10)
+		s.mute = true
+		_, _, _ = auth.Authenticate(authParam(r, true, []string{"later:op"}))
+		s.mute = false
 	})
 	return s, v
 }
